@@ -534,8 +534,11 @@ func (a *GarbageCollectingAssociator) AssociateTemplates(ctx context.Context, cr
 		if err := a.cached.Update(ctx, cd); resource.IgnoreNotFound(err) != nil {
 			return nil, errors.Wrap(err, errGCCleanupLabels)
 		}
-		// Delete the composed resource.
-		if err := a.cached.Delete(ctx, cd); resource.IgnoreNotFound(err) != nil {
+		// Delete the composed resource. We only want to delete the resource we
+		// observed: if it was deleted and another object was created with the
+		// same name in the meantime, that object is not ours to delete.
+		uid := cd.GetUID()
+		if err := a.cached.Delete(ctx, cd, client.Preconditions{UID: &uid}); resource.IgnoreNotFound(err) != nil {
 			return nil, errors.Wrap(err, errGCComposed)
 		}
 	}
